@@ -4,7 +4,8 @@ EXTENDS JsonRT, Json, IOUtils, SequencesExt, FiniteSetsExt
 CONSTANTS Gob, Tier
 PairTypes == IF Tier = "thorough" THEN GoTypes ELSE {"Object", "Place", "Link"}
 AllCases == OneField(Gob) \cup UntypedOne(Gob) \cup AllTypeNames \cup Nested1 \cup Full(Gob) \cup TopLevel \cup Pairwise(PairTypes, Gob)
-ModelUniverse == OneField(TRUE) \cup AllTypeNames \cup Nested1 \cup Full(TRUE) \cup TopLevel
+ModelUniverse == IF Tier = "thorough" THEN OneField(TRUE) \cup AllTypeNames \cup Nested1 \cup Full(TRUE) \cup TopLevel
+                 ELSE {c \in OneField(TRUE) : c.lab.g \in {"Actor", "Question", "Place", "Link", "OrderedCollectionPage"}} \cup Nested1 \cup Full(TRUE) \cup TopLevel
 GenInit == phase = "gen" /\ codec = "json" /\ orig = NilItem /\ val = NilItem
 GenNext == FALSE /\ UNCHANGED vars
 ASSUME ndJsonSerialize("rt_cases.ndjson", SetToSeq(AllCases))
